@@ -433,9 +433,13 @@ fn struct_singleton_template(b: &syn::Block) -> bool {
     m.method == "as_mut" && m.args.is_empty() && matches!(strip(&m.receiver), Expr::Path(_))
 }
 
-/// `*(LIT as *const Self)`
+/// `*(LIT as *const Self)` or `::std::ptr::read(LIT as *const Self)`
 fn enum_singleton_template(b: &syn::Block) -> bool {
     let Some(e) = sole_expr(b) else { return false };
+    if let Expr::Call(c) = e {
+        let is_read = matches!(strip(&c.func), Expr::Path(p) if p.path.segments.last().is_some_and(|s| s.ident == "read"));
+        return is_read && c.args.len() == 1 && lit_cast(&c.args[0]).is_some();
+    }
     let Some(inner) = deref_of(e) else { return false };
     lit_cast(inner).is_some()
 }
